@@ -30,6 +30,53 @@ import (
 	"github.com/tuneinsight/lattigo/v6/utils/sampling"
 )
 
+// c14Guard runs one generator step; a panic inside it (of the library or of the harness' own replay)
+// becomes a failing probe instead of aborting the run.
+func c14Guard(c *Ctx, key, label string, f func()) {
+	defer func() {
+		if r := recover(); r != nil {
+			msg := strings.Map(func(x rune) rune {
+				if x == ' ' || x == '\n' || x == '\t' {
+					return '_'
+				}
+				return x
+			}, fmt.Sprint(r))
+			if len(msg) > 120 {
+				msg = msg[:120]
+			}
+			c.Probe("run_completed", strings.ReplaceAll(label, " ", "_"), key, "panic:"+msg)
+		}
+	}()
+	f()
+}
+
+// c14Refused: a call that must be refused (documented error) on a receiver holding a valid earlier result:
+// an error is returned AND the receiver is left completely unchanged (`snap` captures polynomials and metadata).
+func c14Refused(c *Ctx, fn, what, label string, snap func() string, call func() error) {
+	before := snap()
+	v := Try(func() string {
+		if err := call(); err != nil {
+			return "err"
+		}
+		return "accepted"
+	})
+	detail := ""
+	if v != "err" {
+		detail = what + "_" + v + "_instead_of_error"
+	} else if snap() != before {
+		detail = what + "_refused_but_the_receiver_was_modified"
+	}
+	prop := "C14"
+	if strings.HasPrefix(fn, "C16:") {
+		prop, fn = "C16", fn[4:]
+	}
+	c.Probe("refused_call_keeps_receiver", fn+" "+what+" "+label, prop+"/"+fn+"/refused-call-modified-receiver", detail)
+}
+
+func c14GSnap(params rlwe.Parameters, g *rlwe.GadgetCiphertext) string {
+	return c14G(params, g, true, true)
+}
+
 func c14B(params rlwe.Parameters) int64 {
 	return int64(math.Ceil(params.Xe().(ring.DiscreteGaussian).Bound)) + 1
 }
